@@ -11,6 +11,7 @@ import (
 	"os"
 	"path/filepath"
 	"sort"
+	"strconv"
 	"testing"
 
 	"github.com/spf13/viper"
@@ -94,10 +95,17 @@ func suRestored() map[string]string {
 	}
 	var fts []dastard.FullTriggerState
 	if err := viper.UnmarshalKey("trigger", &fts); err == nil {
-		for i := range fts {
-			fts[i].EdgeMulti = false
+		// per channel, as the in-process driver reports it from the processors PrepareRun builds (those are not
+		// reachable from package main: here the decoded topic itself is put into the same form)
+		per := map[string]dastard.TriggerState{}
+		for _, g := range fts {
+			st := g.TriggerState
+			st.EdgeMulti = false
+			for _, ch := range g.ChannelIndices {
+				per[strconv.Itoa(ch)] = st
+			}
 		}
-		out["TRIGGER"] = suCanon(fts)
+		out["TRIGGER"] = suCanon(per)
 	}
 	var mapFileName string
 	if err := viper.UnmarshalKey("tesmapfile", &mapFileName); err == nil {
